@@ -135,15 +135,22 @@ def decide(prop, mod, tier, seed, m, dead, wall, quiet=False):
     # ---- violations
     viol_groups = {}
     known_seen = {}
+    wit = {}
     for w in m['witness']:
-        if w['property'] != prop:
+        wit.setdefault((w['property'], w['function'], w['clause'], tuple(w.get('classes', []))), []).append(w)
+    # every (function, clause, input class) with violations is decided, whether or not a witness was kept
+    for (p_, func, clause, classes), cnt in sorted(m['skips'].items()):
+        if p_ != prop:
             continue
-        k = match_known(known, prop, w['function'], w['clause'], w.get('classes', []))
+        k = match_known(known, prop, func, clause, list(classes))
         if k is not None:
             known_seen.setdefault(k['id'], [k, 0])
-            known_seen[k['id']][1] += 1
+            known_seen[k['id']][1] += cnt
             continue
-        viol_groups.setdefault((w['function'], w['clause']), []).append(w)
+        ws = wit.get((p_, func, clause, classes)) or [{'property': prop, 'function': func, 'clause': clause,
+                                                        'classes': list(classes), 'detail': None, 'case': None,
+                                                        'workload': prop, 'note': 'witness cap reached'}]
+        viol_groups.setdefault((func, clause), []).extend(ws)
     nviol = sum(v[1] for k, v in counts.items())
     lines = []
     rdir = os.path.join(os.environ.get('BCTMON_OUT', HERE), 'replays', prop)
